@@ -79,7 +79,24 @@ class Spec:
                 if k in td:
                     merged[k] = td[k]
             td = merged
+        if td['type'] in ('SEQUENCE', 'SET') and any(
+                isinstance(m, dict) and 'components-of' in m for m in td['members']):
+            td = dict(td)
+            td['members'] = self._expand_components_of(td['members'], module)
         return td, module, chain
+
+    def _expand_components_of(self, members, module):
+        out = []
+        for m in members:
+            if isinstance(m, dict) and 'components-of' in m:
+                ref, rmod, _c = self.resolve({'type': m['components-of']}, module)
+                for mm in ref['members']:
+                    if mm is None:
+                        break          # X.680 25.5: only the root components are included
+                    out.append(mm)
+            else:
+                out.append(m)
+        return out
 
     def int_value(self, v, module, td=None):
         if isinstance(v, int):
